@@ -19,7 +19,7 @@ pub fn property() -> Property {
     Property {
         id: "C12",
         level: "fault_enumeration",
-        rule: "https requests carrying unique marker strings (path, query, header, cookie, body, Basic credentials) are sent through a scripted proxy connection (http and https proxy URLs, with and without userinfo; origin hosts domain/IPv4/IPv6 x default/explicit port). The proxy side is a scripted reply: EVERY status 100..599 (exhaustive), reply heads cut at EVERY byte offset, garbage heads, heads > 8 KiB, refusal bodies {empty, 11 B, 10 239, 10 240, 10 241 B, endless}, served whole / bytewise / in random segments; for 2xx replies the client is then spliced onto a live TLS server (bridge) whose certificate is either valid for the origin's name or only for the proxy's name (private CA added as root). Oracle on the transport trace, where every write carries the number of reply bytes the client had consumed: first bytes are `CONNECT origin-host:effective-port HTTP/1.1` (IPv6 bracketed); Proxy-Authorization decodes to the proxy URL's credentials; NO write between the end of the CONNECT head and the read that delivered the last byte of a 2xx reply head; NO byte written after a non-2xx, truncated or garbage reply; the error is ConnectError{status, body} with body <= 10 240 bytes and a prefix of what the proxy sent; no marker (plain or base64) in the raw bytes written to the proxy; the request decrypted inside the tunnel carries no Proxy-Authorization; the handshake succeeds against the certificate for the origin's name and fails against one valid only for the proxy's name. Non-trivial: every case; distinct = hash(reply bytes, segmentation, configuration).",
+        rule: "https requests carrying unique marker strings (path, query, header, cookie, body, Basic credentials) are sent through a scripted proxy connection (http and https proxy URLs, with and without userinfo; origin hosts domain/IPv4/IPv6 x default/explicit port). The proxy side is a scripted reply: EVERY status 100..599 (exhaustive), reply heads cut at EVERY byte offset, garbage heads, heads > 8 KiB, refusal bodies {empty, 11 B, 10 239, 10 240, 262 144 B, endless} with and without a Content-Length announced by the proxy, served whole / bytewise / in random segments; for 2xx replies the client is then spliced onto a live TLS server (bridge) whose certificate is either valid for the origin's name or only for the proxy's name (private CA added as root). Oracle on the transport trace, where every write carries the number of reply bytes the client had consumed: first bytes are `CONNECT origin-host:effective-port HTTP/1.1` (IPv6 bracketed); Proxy-Authorization decodes to the proxy URL's credentials; NO write between the end of the CONNECT head and the read that delivered the last byte of a 2xx reply head; NO byte written after a non-2xx, truncated or garbage reply; the error is ConnectError{status, body} with body <= 10 240 bytes and a prefix of what the proxy sent; no marker (plain or base64) in the raw bytes written to the proxy; the request decrypted inside the tunnel carries no Proxy-Authorization; the handshake succeeds against the certificate for the origin's name and fails against one valid only for the proxy's name. Non-trivial: every case; distinct = hash(reply bytes, segmentation, configuration).",
         assumptions: &["proxy credentials are drawn from unreserved characters (percent-decoding of userinfo is not fixed by the statement)", "the `Proxy-Authorization: Basic Og==` sent for proxies without credentials is recorded, not judged"],
         min_nontrivial: |t| t.pick(1_000, 20_000),
         gens,
@@ -32,7 +32,7 @@ fn gens(tier: Tier) -> Vec<Gen> {
     vec![
         Gen { name: "status", count: 500, exhaustive: true, run: run_status },
         Gen { name: "cuts", count: cuts_count(), exhaustive: true, run: run_cuts },
-        Gen { name: "bodies", count: 6 * 3 * 2, exhaustive: true, run: run_bodies },
+        Gen { name: "bodies", count: 6 * 3 * 2 * 2, exhaustive: true, run: run_bodies },
         Gen { name: "matrix", count: (3 * 2 * 2 * 3 * 2) as u64, exhaustive: true, run: run_matrix },
         Gen { name: "garbage", count: tier.pick(800, 30_000), exhaustive: false, run: run_garbage },
         Gen { name: "tunnels", count: tier.pick(400, 6_000), exhaustive: false, run: run_tunnel_random },
@@ -368,13 +368,20 @@ fn run_cuts(ctx: &mut Ctx, rng: &mut Rng, index: u64) {
 }
 
 fn run_bodies(ctx: &mut Ctx, rng: &mut Rng, index: u64) {
-    let sizes = [0usize, 11, 10_239, 10_240, 10_241, usize::MAX];
+    let sizes = [0usize, 11, 10_239, 10_240, 262_144, usize::MAX];
     let size = sizes[(index % 6) as usize];
     let segc = (index / 6) % 3;
-    let status = if index / 18 == 0 { 403 } else { 502 };
+    let status = if (index / 18) % 2 == 0 { 403 } else { 502 };
+    // the proxy may announce the length of its refusal body: the cap must hold regardless
+    let with_cl = index / 36 == 1;
     let cfg = Config::basic();
-    let head = reply_head(status, false);
-    let descr = |x: &str| format!("{x}; refusal {status} with body of {} bytes, seg class {segc}", if size == usize::MAX { "endless".to_owned() } else { size.to_string() });
+    let mut head = reply_head(status, false);
+    if with_cl {
+        head.truncate(head.len() - 2);
+        head.extend_from_slice(format!("Content-Length: {}\r\n\r\n", if size == usize::MAX { 1usize << 40 } else { size }).as_bytes());
+        ctx.count("refusal_bodies_with_content_length", 1);
+    }
+    let descr = |x: &str| format!("{x}; refusal {status} with body of {} bytes (Content-Length announced: {with_cl}), seg class {segc}", if size == usize::MAX { "endless".to_owned() } else { size.to_string() });
     let mut steps = seg(rng, segc, &head);
     let body: Vec<u8>;
     if size == usize::MAX {
@@ -384,7 +391,7 @@ fn run_bodies(ctx: &mut Ctx, rng: &mut Rng, index: u64) {
     } else {
         body = respgen::payload_bytes(rng, size);
         steps.extend(seg(rng, segc, &body));
-        if size == 10_241 {
+        if size == 262_144 {
             ctx.count("refusal_body_10241", 1);
         }
     }
